@@ -386,9 +386,58 @@ fn gen_tworoutes(rng: &mut Rng) -> Vec<Op> {
     ops
 }
 
+/// a node that is waiting to be re-analysed when its class is merged away inside the same rebuild: `P = {k(a, w), app(a, c)}`,
+/// `Q = {k(b, w)}` with several parents (so that `P` is the class that moves), `a` big, `b` a leaf; `a = b` makes `k(a, w)` and
+/// `k(b, w)` congruent while `app(a, c)` — the node that carries the new best value of the merged class — is still queued.
+/// Padding leaves shift the class ids and with them the order of the work list.
+fn gen_movedwait(rng: &mut Rng) -> Vec<Op> {
+    let sym = |s: &str| ATerm { v: 16, fields: vec![CField::Lit(s.into())], children: vec![] };
+    let num = |s: &str| ATerm { v: 15, fields: vec![CField::Lit(s.into())], children: vec![] };
+    let h = |a: ATerm| ATerm { v: 13, fields: vec![CField::App], children: vec![a] };
+    let bin = |v: usize, a: ATerm, b: ATerm| ATerm { v, fields: vec![CField::App, CField::App], children: vec![a, b] };
+    let chain = |n: usize, leaf: ATerm| (0..n).fold(leaf, |t, _| h(t));
+    let a = chain(rng.range(3, 5), sym("za"));
+    let w = chain(rng.range(5, 7), sym("zw"));
+    let b = sym("b");
+    let mut terms: Vec<ATerm> = Vec::new();
+    let mut pad = 0;
+    let mut padding = |terms: &mut Vec<ATerm>, n: usize| {
+        for _ in 0..n {
+            terms.push(num(&format!("{}", 20 + pad)));
+            pad += 1;
+        }
+    };
+    padding(&mut terms, rng.below(5));
+    let ia = terms.len();
+    terms.push(a.clone());
+    padding(&mut terms, rng.below(4));
+    let ib = terms.len();
+    terms.push(b.clone());
+    padding(&mut terms, rng.below(3));
+    let ifa = terms.len();
+    terms.push(bin(14, a.clone(), w.clone()));
+    let ika = terms.len();
+    terms.push(bin(1, a.clone(), sym("c")));
+    let fb = bin(14, b.clone(), w.clone());
+    terms.push(fb.clone());
+    for j in 0..rng.range(3, 6) {
+        terms.push(bin(5, fb.clone(), num(&format!("{}", 2 + j))));
+    }
+    let mut ops: Vec<Op> = terms.into_iter().map(Op::Add).collect();
+    ops.push(Op::Union(ifa, ika));
+    ops.push(Op::Union(ia, ib));
+    ops
+}
+
 pub fn run(ctx: &mut Ctx) {
     for _ in 0..ctx.count {
         let mut rng = ctx.rng.fork();
+        if rng.chance(1, 3) {
+            let ops = gen_movedwait(&mut rng);
+            let desc = enc_ops(&ops);
+            emit_kind::<MinSize>(ctx, &ops, &[], 0, |d| d.to_string(), "minsize", &desc);
+            emit_kind::<MinDepth>(ctx, &ops, &[], 0, |d| d.to_string(), "mindepth", &desc);
+        }
         if rng.chance(1, 4) {
             let ops = gen_tworoutes(&mut rng);
             let desc = enc_ops(&ops);
